@@ -61,13 +61,13 @@ void h_cast16_ntsc(void) {
   PAIR(si_s_ms, short, 1000, 1, IMIN, IMAX, IMIN, IMAX, SMIN16, SMAX16)
   VF_REACH(); }
 
-/*@GROUP name=cast32_window props=C12,C02 kind=B bound=|count|<=2^17-and-windows-at-2^31 solver=kissat timeout=400 cost=5@*/
+/*@GROUP name=cast32_window props=C12,C02 kind=B bound=|count|<=2^12-and-windows-of-2^13-at-INT_MIN/INT_MAX solver=kissat timeout=400 cost=5@*/
 void h_cast32_window(void) { VF_INPUT(unsigned char, w);
-  int lo = w == 0 ? -131072 : (w == 1 ? IMAX - 262144 : IMIN), hi = w == 0 ? 131072 : (w == 1 ? IMAX : IMIN + 262144);
+  int lo = w == 0 ? -4096 : (w == 1 ? IMAX - 8192 : IMIN), hi = w == 0 ? 4096 : (w == 1 ? IMAX : IMIN + 8192);
   PAIR(i_ms_s, int, 1, 1000, IMIN, IMAX, IMIN, IMAX, lo, hi)
   PAIR(i_s_h, int, 1, 3600, IMIN, IMAX, IMIN, IMAX, lo, hi)
   PAIR(i_r13_r57, int, 7, 15, IMIN, IMAX, IMIN, IMAX, lo, hi)
-  PAIR(is_ms_s, int, 1, 1000, SMIN16, SMAX16, IMIN, IMAX, -131072, 131072)
+  PAIR(is_ms_s, int, 1, 1000, SMIN16, SMAX16, IMIN, IMAX, -4096, 4096)
   VF_REACH(); }
 
 /*@GROUP name=cast64_window props=C12,C02 kind=B bound=|count|<=2^17-and-windows-at-2^62/2^63 solver=kissat timeout=600 cost=6@*/
@@ -86,6 +86,10 @@ void h_arith(void) { VF_INPUT(int, a); VF_INPUT(int, b);
     if (FITS(dif, IMIN, IMAX)) VF_ASSERT((I)sub_ms_s(a, b) == dif, "ms - s == a - 1000*b in the common type");
     VF_ASSERT(eq_ms_s(a, b) == ((I)a == (I)b * 1000) && ne_ms_s(a, b) == ((I)a != (I)b * 1000), "== / != compare exact values");
     VF_ASSERT(lt_ms_s(a, b) == ((I)a < (I)b * 1000) && le_ms_s(a, b) == ((I)a <= (I)b * 1000) && gt_ms_s(a, b) == ((I)a > (I)b * 1000) && ge_ms_s(a, b) == ((I)a >= (I)b * 1000), "<,<=,>,>= compare exact values"); }
+  VF_REACH(); }
+
+/*@GROUP name=arith_ratio props=C12,C02 kind=F solver=kissat timeout=300@*/
+void h_arith_ratio(void) { VF_INPUT(int, a); VF_INPUT(int, b);
   /* 1/3 and 5/7 -> common period 1/21: a*7 + b*15 */
   if (FITS((I)a * 7, IMIN, IMAX) && FITS((I)b * 15, IMIN, IMAX)) {
     if (FITS((I)a * 7 + (I)b * 15, IMIN, IMAX)) VF_ASSERT((I)add_r(a, b) == (I)a * 7 + (I)b * 15, "ratio<1,3> + ratio<5,7> in the common period 1/21");
@@ -116,14 +120,24 @@ void h_units(void) { VF_INPUT(int, n); VF_INPUT(unsigned char, which); __CPROVER
   VF_ASSERT(unit_seconds(which, n) == n * per, "minutes/hours/days/weeks/months/years convert to seconds with the standard periods (month = 2629746 s, year = 31556952 s)");
   VF_REACH(); }
 
-/*@GROUP name=muldiv16 props=C12,C02 kind=F solver=kissat timeout=400@*/
-void h_muldiv16(void) { VF_INPUT(short, a); VF_INPUT(short, b);
-  if (b != 0) { VF_ASSERT(div_dd(a, b) == (short)(a / b), "duration / duration == count quotient"); VF_ASSERT(mod_dd(a, b) == (short)(a % b), "duration % duration");
-    if (!(a == -32768 && b == -1)) { VF_ASSERT(div_eq(a, b) == (short)(a / b), "/= scalar"); } VF_ASSERT(mod_eq(a, b) == (short)(a % b) && mod_eq_d(a, b) == (short)(a % b), "%= scalar / %= duration"); }
-  if (FITS((I)a * b, SMIN16, SMAX16)) VF_ASSERT(mul_eq(a, b) == (short)(a * b), "*= scalar");
+/*@GROUP name=muldiv8 props=C12,C02 kind=F solver=kissat timeout=300@*/
+void h_muldiv8(void) { VF_INPUT(signed char, a); VF_INPUT(signed char, b);   /* every pair of 8-bit counts */
+  if (b != 0) { VF_ASSERT(div_dd(a, b) == (signed char)(a / b), "duration / duration == count quotient"); VF_ASSERT(mod_dd(a, b) == (signed char)(a % b), "duration % duration");
+    if (!(a == -128 && b == -1)) { VF_ASSERT(div_eq(a, b) == (signed char)(a / b), "/= scalar"); } VF_ASSERT(mod_eq(a, b) == (signed char)(a % b) && mod_eq_d(a, b) == (signed char)(a % b), "%= scalar / %= duration"); }
+  if (FITS((I)a * b, -128, 127)) VF_ASSERT(mul_eq(a, b) == (signed char)(a * b), "*= scalar");
+  VF_REACH(); }
+
+/*@GROUP name=mixed_rep props=C12,C02 kind=F solver=kissat timeout=300@*/
+void h_mixed_rep(void) { VF_INPUT(long long, a); VF_INPUT(int, b); VF_INPUT(unsigned, u); vf_i128 bm = (vf_i128)b * 60000;   /* int minutes -> long long milliseconds: exact in 64 bits */
+  VF_ASSERT((vf_i128)conv_min_lms(b) == bm, "duration<long long,milli>(duration<int,minute>) converts in the WIDER representation (no wrap at 2^31)");
+  VF_ASSERT(conv_umin_ums(u) == (unsigned long long)u * 60000ULL, "unsigned 32 -> 64 bit conversion does not wrap");
+  if (FITS((vf_i128)a + bm, (vf_i128)LMIN, (vf_i128)LMAX)) VF_ASSERT((vf_i128)add_lms_min(a, b) == (vf_i128)a + bm, "ms(int64) + min(int32) in the common type");
+  if (FITS((vf_i128)a - bm, (vf_i128)LMIN, (vf_i128)LMAX)) VF_ASSERT((vf_i128)sub_lms_min(a, b) == (vf_i128)a - bm, "ms(int64) - min(int32) in the common type");
+  VF_ASSERT(eq_lms_min(a, b) == ((vf_i128)a == bm) && lt_lms_min(a, b) == ((vf_i128)a < bm) && gt_min_lms(b, a) == (bm > (vf_i128)a), "comparisons across representation widths are exact");
   VF_REACH(); }
 
 /*@GROUP name=tp_round props=C12,C02 kind=B bound=|count|<=2^17 solver=kissat@*/
 void h_tp_round(void) { VF_INPUT(int, c); __CPROVER_assume(c >= -131072 && c <= 131072); I num = c;
+  VF_ASSERT((I)tp_cast(c) == s_trunc64(num, 1000), "time_point_cast truncates toward zero like duration_cast");
   VF_ASSERT((I)tp_floor(c) == s_floor64(num, 1000) && (I)tp_ceil(c) == s_ceil64(num, 1000) && (I)tp_round(c) == s_round64(num, 1000), "floor/ceil/round of a time_point act on its duration");
   VF_REACH(); }
